@@ -8,6 +8,7 @@ import (
 	"encoding/json"
 	"fmt"
 	"math"
+	"reflect"
 	"unicode/utf8"
 
 	"go.pennock.tech/tabular"
@@ -304,3 +305,32 @@ func (it Item) DeclaredWidth() (int, bool) {
 
 // Str builds a string item.
 func S(s string) Item { return Item{K: "str", S: Str(s)} }
+
+// SameItem: the cell hands back the original item unchanged.
+func SameItem(orig, got interface{}) bool {
+	if orig == nil || got == nil {
+		return orig == nil && got == nil
+	}
+	if reflect.TypeOf(orig) != reflect.TypeOf(got) {
+		return false
+	}
+	vo, vg := reflect.ValueOf(orig), reflect.ValueOf(got)
+	switch vo.Kind() {
+	case reflect.Ptr, reflect.Chan, reflect.Map, reflect.UnsafePointer:
+		return vo.Pointer() == vg.Pointer()
+	case reflect.Slice:
+		return vo.Pointer() == vg.Pointer() && vo.Len() == vg.Len()
+	case reflect.Float64:
+		if math.IsNaN(vo.Float()) {
+			return math.IsNaN(vg.Float())
+		}
+	}
+	if co, ok := orig.(tabular.Cell); ok {
+		cg := got.(tabular.Cell)
+		return co.String() == cg.String() && SameItem(co.Item(), cg.Item())
+	}
+	if vo.Type().Comparable() {
+		return orig == got
+	}
+	return reflect.DeepEqual(orig, got)
+}
